@@ -169,15 +169,19 @@ PROPERTIES = {
         "claim": "Proof for the channel-side bookkeeping of RTCDataChannel: _addBufferedAmount changes bufferedAmount by exactly "
                  "the given amount and emits 'bufferedamountlow' exactly when the amount goes from above the threshold to at or "
                  "below it (events observed through a ghost log of emit() calls); _setReadyState stores the state and emits "
-                 "'open' / 'close' exactly on a change into that state, at most one event per call. Reduced: the DCEP OPEN/ACK "
-                 "exchange, id allocation, forward-only state at the call sites and the accounting across send/flush in "
-                 "RTCSctpTransport are not under contract.",
+                 "'open' / 'close' exactly on a change into that state, at most one event per call; RTCSctpTransport."
+                 "_data_channel_open registers a channel that already has an id (ValueError exactly if the id is taken) and queues "
+                 "exactly one DATA_CHANNEL_OPEN for it whose bytes are the RFC 8832 layout of the channel's ordering, reliability "
+                 "mode and parameter, and the UTF-8 label and protocol with their byte lengths, for any Unicode label and "
+                 "protocol. Reduced: the receiving side of DCEP, id allocation, forward-only state at the call sites and the "
+                 "accounting across send/flush in RTCSctpTransport are not under contract.",
         "note": "emit() is modelled as appending the event name to a ghost list; listeners are assumed not to re-enter the "
                 "channel while an event is being emitted (a re-entrant send() from a bufferedamountlow listener is therefore "
-                "outside the model). F-16 (DCEP label length counted in characters) is not decided by any check.",
+                "outside the model). F-16 (DCEP label length counted in characters) was found by _data_channel_open's layout clause "
+                "and fixed. str.encode('utf8') is an axiomatised total function (A-EXT).",
         "design_ref": "DESIGN.md 4.13, 9",
         "trusted_base": COMMON + ["pyee emit(): listeners do not re-enter the emitting object"],
-        "not_decided": ["DCEP OPEN encode/decode (_data_channel_open / _data_channel_receive), F-16", "id parity and reuse",
+        "not_decided": ["DCEP OPEN decoding and ACK handling in _data_channel_receive", "id parity and reuse",
                         "forward-only readyState at the call sites (ACK after close)", "bufferedAmount accounting in "
                         "_data_channel_send/_data_channel_flush", "re-entrant listeners"],
     },
